@@ -303,6 +303,9 @@ Prop_C20(S) == S.in.t = "ident" =>
 (* C17b Any genesis accepted by validation can be initialised *)
 Prop_C17b(S) == S.in.t = "gendoc" => (S.gen.validateOk => S.gen.initOk)
 
+\* ... and initialises the module to exactly the state the document describes
+Prop_C17c(S) == S.in.t = "gendoc" /\ S.gen.initOk /\ GenValid(S.in.g) => OrbGroups(S.post) = OrbGroups(GenDoc(S.pre, S.in).st)
+
 (* C14 No input makes the receive path panic; malformed payloads are refused *)
 Prop_C14(S) == IsRecv(S) =>
   /\ ~S.panic
